@@ -63,10 +63,12 @@ fn random_plan(g: &mut G, allow_per_test_cfg: bool, finite_limit: bool) -> Plan 
                 after_lines: g.below(3) as usize,
                 no_expectations: g.chance(40),
             })
-        } else {
+        } else if r < 97 {
             Plan::new(Fate::Slow {
-                ns: *g.pick(&[MS, 100 * MS, SEC, 3 * SEC, 30 * SEC]),
+                ns: *g.pick(&[MS, 100 * MS, SEC, 3 * SEC, 30 * SEC, 5000 * SEC]),
             })
+        } else {
+            Plan::new(Fate::Hang)
         };
         plan.lines = g.below(5) as usize;
         if !allow_per_test_cfg && (plan.cfg != TestCfg::default() || plan.fate == Fate::Detached) {
@@ -76,7 +78,7 @@ fn random_plan(g: &mut G, allow_per_test_cfg: bool, finite_limit: bool) -> Plan 
             continue;
         }
         if allow_per_test_cfg && g.chance(10) && plan.cfg.timeout_ns.is_none() && plan.fate != Fate::Detached {
-            plan.cfg.timeout_ns = Some(*g.pick(&[500 * MS, 2 * SEC, 20 * SEC]));
+            plan.cfg.timeout_ns = Some(*g.pick(&[MS, 500 * MS, 2 * SEC, 20 * SEC, 3600 * SEC, 86_400 * SEC, 30 * 86_400 * SEC]));
         }
         if allow_per_test_cfg && g.chance(8) && plan.fate != Fate::Detached {
             plan.cfg.wait = Some(Wait {
@@ -127,11 +129,11 @@ pub fn lane_random(tier: Tier, seed: u64, n: usize, tag: &str) -> Vec<Scenario> 
                 if unlimited {
                     d.total_timeout_ns = Some(0);
                 } else if g.chance(40) {
-                    d.total_timeout_ns = Some(*g.pick(&[SEC, 5 * SEC, 60 * SEC]));
+                    d.total_timeout_ns = Some(*g.pick(&[SEC, 5 * SEC, 60 * SEC, 3600 * SEC, 7 * 86_400 * SEC]));
                 }
                 let mut cli = Cli::default();
                 if g.chance(15) && !unlimited {
-                    cli.timeout_seconds = Some(*g.pick(&[1u64, 3, 10]));
+                    cli.timeout_seconds = Some(*g.pick(&[1u64, 3, 10, 3600, 100_000]));
                 }
                 // stream at a random layer
                 let s = *g.pick(&[Stream::Stdout, Stream::Stderr, Stream::Combined]);
@@ -156,6 +158,7 @@ pub fn lane_random(tier: Tier, seed: u64, n: usize, tag: &str) -> Vec<Scenario> 
                     docs: vec![d],
                     cli,
                     sim,
+                    pretty: false,
                     check: all_checks(),
                 }
             }
@@ -168,7 +171,7 @@ pub fn lane_random(tier: Tier, seed: u64, n: usize, tag: &str) -> Vec<Scenario> 
                 if unlimited {
                     cli.timeout_seconds = Some(0);
                 } else if g.chance(20) {
-                    cli.timeout_seconds = Some(*g.pick(&[2u64, 5, 30]));
+                    cli.timeout_seconds = Some(*g.pick(&[2u64, 5, 30, 4000, 1_000_000]));
                 }
                 let mut n_procs = 0u32;
                 for k in 0..n_docs {
@@ -183,7 +186,7 @@ pub fn lane_random(tier: Tier, seed: u64, n: usize, tag: &str) -> Vec<Scenario> 
                     let n_tests = 1 + g.below(4) as usize;
                     let mut d = random_doc(&mut g, &mut sim, &path, if cram { Format::Cram } else { Format::Md }, !script, n_tests, !unlimited);
                     if !cram && !unlimited && g.chance(25) {
-                        d.total_timeout_ns = Some(*g.pick(&[SEC, 4 * SEC, 120 * SEC]));
+                        d.total_timeout_ns = Some(*g.pick(&[SEC, 4 * SEC, 120 * SEC, 36_000 * SEC]));
                     }
                     if !cram && g.chance(20) {
                         d.defaults.output_stream = Some(*g.pick(&[Stream::Stdout, Stream::Combined]));
@@ -245,6 +248,7 @@ pub fn lane_random(tier: Tier, seed: u64, n: usize, tag: &str) -> Vec<Scenario> 
                     docs,
                     cli,
                     sim,
+                    pretty: false,
                     check: all_checks(),
                 }
             }
@@ -295,6 +299,7 @@ pub fn lane_state(seed: u64, n: usize) -> Vec<Scenario> {
             docs: vec![doc("state.md", Format::Md, tests)],
             cli: Cli::default(),
             sim,
+            pretty: false,
             check: all_checks(),
         };
         fill_expectations(&mut sc, &mut g);
@@ -382,6 +387,7 @@ pub fn lane_cli_bytes(seed: u64, n: usize) -> Vec<Scenario> {
             docs: vec![d],
             cli,
             sim,
+            pretty: false,
             check: vec!["C13".into(), "C05".into(), "C20".into()],
         });
     }
@@ -486,6 +492,7 @@ pub fn lane_skip(seed: u64) -> Vec<Scenario> {
                             docs,
                             cli: Cli::default(),
                             sim,
+                            pretty: false,
                             check: all_checks(),
                         };
                         fill_expectations(&mut sc, &mut g);
@@ -602,6 +609,7 @@ pub fn lane_env(seed: u64) -> Vec<Scenario> {
                         docs,
                         cli,
                         sim,
+                        pretty: false,
                         check: all_checks(),
                     };
                     fill_expectations(&mut sc, &mut g);
@@ -644,6 +652,7 @@ pub fn lane_env(seed: u64) -> Vec<Scenario> {
                 docs,
                 cli,
                 sim,
+                pretty: false,
                 check: vec!["C18".into(), "C20".into()],
             };
             fill_expectations(&mut sc, &mut g);
@@ -720,6 +729,7 @@ pub fn lane_runs(seed: u64) -> Vec<Scenario> {
                 docs,
                 cli,
                 sim,
+                pretty: false,
                 check: all_checks(),
             };
             fill_expectations(&mut sc, &mut g);
@@ -727,4 +737,20 @@ pub fn lane_runs(seed: u64) -> Vec<Scenario> {
         }
     }
     out
+}
+
+/// C20: the summary line exists only in the pretty renderer; the same scenarios (scenario + tape
+/// = one exactly repeatable execution) are run once more with it
+pub fn lane_summary(seed: u64, stride: usize) -> Vec<Scenario> {
+    let mut v = lane_runs(seed);
+    v.extend(lane_skip(seed).into_iter().step_by(7));
+    v.into_iter()
+        .step_by(stride.max(1))
+        .map(|mut s| {
+            s.lane = format!("summary-{}", s.lane);
+            s.pretty = true;
+            s.check = vec!["C20".into()];
+            s
+        })
+        .collect()
 }
